@@ -11,4 +11,16 @@ func ConfigureStubs(in *gosym.Interp) {
 	in.Redirect["syscall.RawSyscall6"] = "vstubSyscall6"
 	in.Redirect["runtime.LockOSThread"] = "vstubLockOSThread"
 	in.Redirect["runtime.UnlockOSThread"] = "vstubUnlockOSThread"
+	// cmd/sandbox
+	in.Redirect["flag.StringVar"] = "vstubStringVar"
+	in.Redirect["flag.BoolVar"] = "vstubBoolVar"
+	in.Redirect["flag.Parse"] = "vstubFlagParse"
+	in.Redirect["flag.Args"] = "vstubFlagArgs"
+	in.Redirect[Module+"/cmd/sandbox.parsePolicy"] = "vstubParsePolicy"
+	in.Redirect["github.com/elastic/go-ucfg/yaml.NewConfigWithFile"] = "vstubNewConfigWithFile"
+	in.Redirect["(*github.com/elastic/go-ucfg.Config).Unpack"] = "vstubUnpack"
+	in.Redirect[Module+".LoadFilter"] = "vstubLoadFilter"
+	in.Redirect["os/exec.Command"] = "vstubCommand"
+	in.Redirect["(*os/exec.Cmd).Run"] = "vstubCmdRun"
+	in.Redirect["os.Exit"] = "vstubExit"
 }
